@@ -110,6 +110,136 @@ pub fn check_case(ctx: &Ctx, c: &Case) -> Check {
     Ok(())
 }
 
+// ------------------------------------------------------------------------------------------------
+// End to end: the filters as jet1090 applies them (crates/jet1090/src/main.rs: built from the options, applied to
+// stdout and to the --output file). A batch of distinct frames of every address-carrying DF plus frames that do not
+// decode goes through the real binary over a Beast TCP source; what it prints must be exactly the records whose shown
+// df / icao24 pass the configured filters.
+
+#[derive(Clone, Debug)]
+pub struct E2eCase {
+    pub frames: Vec<Case>,
+    /// filter lists in terms of the first frame's values (0 = its own value)
+    pub df_filter: Option<Vec<u8>>,
+    pub ac_filter: Option<Vec<u8>>,
+    pub via_config: bool,
+    pub with_file: bool,
+}
+
+pub fn e2e_scenario(c: &E2eCase) -> crate::e2e::Scenario {
+    let first = &c.frames[0];
+    // an empty list can only be written in a configuration file
+    let via_config = c.via_config || matches!(&c.df_filter, Some(l) if l.is_empty()) || matches!(&c.ac_filter, Some(l) if l.is_empty());
+    crate::e2e::Scenario {
+        references: vec![None],
+        sends: c.frames.iter().enumerate().map(|(i, f)| {
+            let mut fr = frame_of(f);
+            if f.undecoded && fr.len() == 14 {
+                fr[13] ^= 0x01; // DF17/18 with a broken parity, or an AP frame of another aircraft: see expectation below
+            }
+            crate::e2e::Send { source: 0, frame: fr, pause_ms: (i % 3) as u32, cut: if i % 4 == 1 { 5 + i % 11 } else { 0 } }
+        }).collect(),
+        df_filter: c.df_filter.as_ref().map(|v| v.iter().map(|n| if *n == 0 { first.df as u16 } else { other_df(first.df, *n).parse().unwrap_or(17) }).collect()),
+        aircraft_filter: c.ac_filter.as_ref().map(|v| v.iter().map(|n| if *n == 0 { first.addr } else { other_addr(first.addr, *n) }).collect()),
+        dedup_ms: 60,
+        update_position: false,
+        with_file: c.with_file,
+        via_config,
+    }
+}
+
+/// Judge what jet1090 printed for a scenario against the filters' specification.
+pub fn judge_e2e(sc: &crate::e2e::Scenario, out: &crate::e2e::Outcome, rep: &Value) -> Check {
+    let fail = |sig: &str, d: String| Failure::new(format!("c11:e2e:{sig}"), d, rep.clone());
+    let marker = format!("{:06x}", crate::e2e::MARKER_ADDR);
+    // expectation per distinct frame sent
+    let mut want: std::collections::BTreeMap<String, bool> = Default::default();
+    for s in &sc.sends {
+        let keep = match Message::try_from(s.frame.as_slice()) {
+            Err(_) => false,
+            Ok(m) => {
+                let js = serde_json::to_value(&m).map_err(|e| fail("json", e.to_string()))?;
+                let df_ok = sc.df_filter.as_ref().map(|l| l.is_empty() || l.iter().any(|d| Some(d.to_string().as_str()) == js["df"].as_str())).unwrap_or(true);
+                let ac_ok = sc.aircraft_filter.as_ref().map(|l| l.is_empty() || l.iter().any(|a| Some(format!("{a:06x}").as_str()) == js["icao24"].as_str())).unwrap_or(true);
+                df_ok && ac_ok
+            }
+        };
+        want.insert(hex::encode(&s.frame), keep);
+    }
+    let judge_lines = |what: &str, lines: &[String]| -> Check {
+        let mut seen: std::collections::BTreeMap<String, u32> = Default::default();
+        for l in lines {
+            let v: Value = serde_json::from_str(l).map_err(|e| fail("malformed-line", format!("{what}: {e}: {l}")))?;
+            if v["icao24"] == marker.as_str() {
+                continue;
+            }
+            let f = v["frame"].as_str().unwrap_or("").to_string();
+            match want.get(&f) {
+                None => return Err(fail("invented-record", format!("{what} shows a record for frame {f}, which was never sent: {l}"))),
+                Some(false) => return Err(fail("wrongly-kept", format!("{what} shows {l}; df filter {:?}, aircraft filter {:?}", sc.df_filter, sc.aircraft_filter.as_ref().map(|v| v.iter().map(|a| format!("{a:06x}")).collect::<Vec<_>>())))),
+                Some(true) => *seen.entry(f).or_insert(0) += 1,
+            }
+        }
+        for (f, keep) in &want {
+            if *keep && !seen.contains_key(f) {
+                return Err(fail("wrongly-dropped", format!("{what} has no record for frame {f} although it passes df filter {:?} and aircraft filter {:?}", sc.df_filter, sc.aircraft_filter.as_ref().map(|v| v.iter().map(|a| format!("{a:06x}")).collect::<Vec<_>>()))));
+            }
+        }
+        Ok(())
+    };
+    judge_lines("stdout", &out.lines)?;
+    if let Some(fl) = &out.file_lines {
+        judge_lines("the --output file", fl)?;
+    }
+    Ok(())
+}
+
+pub fn check_e2e(ctx: &Ctx, env: &crate::e2e::Env, c: &E2eCase, tag: &str) -> Check {
+    ctx.eval();
+    let sc = e2e_scenario(c);
+    let rep = json!({"kind": "e2e", "scenario": crate::e2e::scenario_json(&sc)});
+    replay_e2e(ctx, env, &sc, &rep, tag)
+}
+
+pub fn replay_e2e(ctx: &Ctx, env: &crate::e2e::Env, sc: &crate::e2e::Scenario, rep: &Value, tag: &str) -> Check {
+    match crate::e2e::play_twice(env, sc, tag) {
+        Err(crate::e2e::Fail::Skip(why)) => {
+            ctx.exclude(&format!("end-to-end scenario not judged: {}", why.split(':').next().unwrap_or("")));
+            Ok(())
+        }
+        Err(crate::e2e::Fail::Died(why)) => Err(Failure::new("c11:e2e:jet1090-died", format!("jet1090 {why} (twice)"), rep.clone())),
+        Ok(out) => {
+            ctx.class("end-to-end scenario judged");
+            let decides = sc.df_filter.as_ref().map(|l| !l.is_empty()).unwrap_or(false) != sc.aircraft_filter.as_ref().map(|l| !l.is_empty()).unwrap_or(false);
+            if decides {
+                ctx.nontrivial(h64(&("e2e", rep.to_string())));
+            }
+            judge_e2e(sc, &out, rep)
+        }
+    }
+}
+
+fn e2e_case() -> impl Strategy<Value = E2eCase> {
+    (proptest::collection::vec(case(), 6..28), filt(), filt(), any::<bool>(), any::<bool>()).prop_map(|(mut frames, df_filter, ac_filter, via_config, with_file)| {
+        // distinct frames only: a repeated frame would be merged or not by the deduplication depending on timing
+        let mut seen = std::collections::BTreeSet::new();
+        frames.retain(|f| seen.insert(frame_of(f)));
+        // several records share the first one's address or DF, so that a filter on its value keeps more than one
+        let (a0, d0) = (frames[0].addr, frames[0].df);
+        for (i, f) in frames.iter_mut().enumerate() {
+            if i % 3 == 1 {
+                f.addr = a0;
+            }
+            if i % 4 == 2 {
+                f.df = d0;
+            }
+        }
+        let mut seen = std::collections::BTreeSet::new();
+        frames.retain(|f| seen.insert(frame_of(f)));
+        E2eCase { frames, df_filter, ac_filter, via_config, with_file }
+    })
+}
+
 fn filt() -> impl Strategy<Value = Option<Vec<u8>>> {
     prop_oneof![
         2 => Just(None),
@@ -126,7 +256,7 @@ fn case() -> impl Strategy<Value = Case> {
 }
 
 pub fn run(ctx: &Ctx) {
-    ctx.set_rule("for each DF in {0,4,5,11,16,17,18,20,21}: a decodable frame with generated address and payload; df filter and aircraft filter each in {absent, empty, [own value], [other values], [others with the own value at any position]}, built as structs or through TOML like the repository test; also records whose decoding failed. Oracle: Filters::is_in == (df filter absent or empty or contains the JSON df) and (aircraft filter absent or empty or contains the JSON icao24), where the JSON is serde_json::to_value(&TimedMessage); undecoded => false. Non-trivial = configuration in which exactly one filter is non-empty; distinct by hash. Plus the full cross product of DF x 5 x 5 filter shapes x struct/TOML.");
+    ctx.set_rule("for each DF in {0,4,5,11,16,17,18,20,21}: a decodable frame with generated address and payload; df filter and aircraft filter each in {absent, empty, [own value], [other values], [others with the own value at any position]}, built as structs or through TOML like the repository test; also records whose decoding failed. Oracle: Filters::is_in == (df filter absent or empty or contains the JSON df) and (aircraft filter absent or empty or contains the JSON icao24), where the JSON is serde_json::to_value(&TimedMessage); undecoded => false. Non-trivial = configuration in which exactly one filter is non-empty; distinct by hash. Plus the full cross product of DF x 5 x 5 filter shapes x struct/TOML. End to end: batches of 6-27 distinct frames (every address-carrying DF, shared addresses / DFs, frames that do not decode) are served to the real jet1090 binary as a Beast TCP source with the filters given on the command line or in a configuration file (the only way to write an empty list); its stdout and its --output file must contain exactly the records whose shown df / icao24 pass (completion is detected through the /all endpoint, scenarios that cannot be completed are skipped and counted).");
     ctx.assume("what the record 'displays' is the df / icao24 of its JSON serialisation");
     // full cross product of shapes for every DF
     let shapes: Vec<Option<Vec<u8>>> = vec![None, Some(vec![]), Some(vec![0]), Some(vec![7]), Some(vec![9, 0, 3])];
@@ -148,11 +278,36 @@ pub fn run(ctx: &Ctx) {
         ctx.class(&format!("random df{}{}", c.df, if c.undecoded { " undecoded" } else { "" }));
         check_case(ctx, c)
     });
+    // end to end through the real binary
+    match crate::e2e::Env::from_env() {
+        Some(env) => {
+            use rayon::prelude::*;
+            let n = ctx.tier.pick(48u32, 640u32);
+            let shards = 16u32;
+            (0..shards).into_par_iter().for_each(|s| {
+                run_prop(ctx, &format!("e2e-{s}"), n / shards, e2e_case(), |c| check_e2e(ctx, &env, c, &format!("c11-{s}")));
+            });
+        }
+        None => {
+            eprintln!("INCONCLUSIVE: JET1090_BIN / VERIF_E2E_CACHE are not set (run through ./check)");
+            std::process::exit(2);
+        }
+    }
     ctx.sample(json!({"df": 18, "addr": "4840d6", "df_filter": ["18"], "aircraft_filter": ["4840d6"], "expected": "kept"}));
     ctx.sample(json!({"df": 4, "addr": "a0b1c2", "df_filter": null, "aircraft_filter": ["a0b1c3"], "expected": "dropped"}));
 }
 
 pub fn replay(ctx: &Ctx, v: &Value) {
+    if v["kind"] == "e2e" {
+        let Some(env) = crate::e2e::Env::from_env() else {
+            eprintln!("INCONCLUSIVE: JET1090_BIN / VERIF_E2E_CACHE are not set (replay through ./check)");
+            std::process::exit(2);
+        };
+        let sc = crate::e2e::scenario_of(&v["scenario"]);
+        ctx.eval();
+        ctx.judge(replay_e2e(ctx, &env, &sc, v, "c11-replay"));
+        return;
+    }
     let list = |x: &Value| -> Option<Vec<u8>> { x.as_array().map(|a| a.iter().map(|y| y.as_u64().unwrap_or(0) as u8).collect()) };
     let mut payload = [0u8; 11];
     if let Some(p) = v["payload"].as_str().and_then(|h| hex::decode(h).ok()) {
